@@ -17,9 +17,9 @@ Theorem when_equation : forall c b1 b2, template "when" [c; b1; b2] = Some (WL [
 Proof. exact when_eq. Qed.
 Print Assumptions when_equation.
 
-Theorem when_eq1uation : forall c b, template "when" [c; b] = Some (WL [VOp OIf; c; WL [VOp ODo; b]]).
+Theorem when_equation_single_body : forall c b, template "when" [c; b] = Some (WL [VOp OIf; c; WL [VOp ODo; b]]).
 Proof. exact when_eq1. Qed.
-Print Assumptions when_eq1uation.
+Print Assumptions when_equation_single_body.
 
 Theorem unless_equation : forall c b1 b2, template "unless" [c; b1; b2] = Some (WL [VOp OIf; WL [VOp ONot; c]; WL [VOp ODo; b1; b2]]).
 Proof. exact unless_eq. Qed.
@@ -152,11 +152,11 @@ Theorem cond_equation : forall b1 b2 b3 b4,
 Proof. exact cond_eq. Qed.
 Print Assumptions cond_equation.
 
-Theorem cond_eq_no_elseuation : forall b1 b2,
+Theorem cond_equation_without_else : forall b1 b2,
   template "cond" [WL [VBool false; b1]; WL [Sy "ready"; b2]] =
   Some (WL [VOp OIf; VBool false; WL [VOp ODo; b1]; WL [VOp OIf; Sy "ready"; WL [VOp ODo; b2]]]).
 Proof. exact cond_eq_no_else. Qed.
-Print Assumptions cond_eq_no_elseuation.
+Print Assumptions cond_equation_without_else.
 
 (** hygiene: every binder a library macro introduces around an operand is either supplied by
     an operand (the loop variable of for / for/list) or a temporary [tmp k] - see the equations
